@@ -1,6 +1,7 @@
 // C13 — Box / Interval are closed axis-aligned point sets; box transforms are tight.
-// Driver: the stages live in c13_sets.hpp (bitset-of-lattice-points oracle), c13_hist.hpp (explicit-state BFS
-// over extendBy histories), c13_closest.hpp (clip / closestPoint*), c13_xform.cpp (transform overloads).
+// Driver: the stages live in c13_sets.hpp (bitset-of-lattice-points oracle), c13_extreme.hpp (boxes with bounds at
+// the ends of the element type's range), c13_hist.hpp (explicit-state BFS over extendBy histories),
+// c13_closest.hpp (clip / closestPoint*), c13_xform.hpp (transform overloads; float/double and integer boxes).
 #include "c13_common.hpp"
 
 namespace c13 {
@@ -12,6 +13,11 @@ extern template bool run_sets<double> (bool);     extern template bool run_histo
 extern template bool run_closest<short> (bool);   extern template bool run_closest<int> (bool);
 extern template bool run_closest<int64_t> (bool); extern template bool run_closest<float> (bool);
 extern template bool run_closest<double> (bool);
+extern template bool run_sets<half> (bool);       extern template bool run_histories<half> (bool);
+extern template bool run_closest<half> (bool);
+extern template bool run_extremes<short> (bool);  extern template bool run_extremes<int> (bool);
+extern template bool run_extremes<int64_t> (bool); extern template bool run_extremes<float> (bool);
+extern template bool run_extremes<double> (bool); extern template bool run_extremes<half> (bool);
 }
 
 using namespace vf;
@@ -31,6 +37,7 @@ int main (int argc, char** argv)
     R ().parse (argc, argv);
     const bool th = R ().thorough ();
     R ().assume ("lattice coordinates are small integers, exactly representable in every element type");
+    R ().assume ("integer boxes (Box3i/Box3s) are transformed by integer-valued matrices only; projective matrices need w != 0 on every corner");
     R ().assume ("extendBy arguments/starts are non-inverted boxes or the canonical empty box (DESIGN.md section 3 interpretation note)");
 
     const char* sets_bound = th
@@ -41,6 +48,17 @@ int main (int argc, char** argv)
     run_stage ("sets.int64", sets_bound, [&] { return c13::run_sets<int64_t> (th); });
     run_stage ("sets.float", sets_bound, [&] { return c13::run_sets<float> (th); });
     run_stage ("sets.double", sets_bound, [&] { return c13::run_sets<double> (th); });
+    // element type half (Box2h / Box3h are library typedefs): the 4-D pair space stays at coordinates {0..2} in both tiers
+    run_stage ("sets.half", "element type half: Interval<half>, Box<Vec2<half>> (Box2h), Box<Vec3<half>> (Box3h), generic Box in 2-D/3-D, Box<Vec4<half>>: every (min,max) in {0..3} per axis incl. inverted x every point of {-1..4}^D; all ordered box pairs (4096^2 in 3-D; 4-D pairs over coordinates {0..2}: 6561^2); canonical empty/infinite with the range ends written as half bit patterns",
+               [&] { return c13::run_sets<half> (false); });
+
+    const char* ext_bound = "Interval, Box<Vec2>, Box<Vec3>, generic Box in 2-D/3-D, Box<Vec4>: every box with per-axis (min,max) in {(LOWEST,MAX),(LOWEST,1),(0,MAX),(0,1),(MAX,LOWEST),(MAX,MAX)} (6^D boxes) x every point of {LOWEST,-1,0,1,2,MAX}^D; all ordered box pairs; extendBy(point / box) from every non-empty and the canonical empty box; size/center/majorAxis wherever the arithmetic is defined";
+    run_stage ("extremes.short", ext_bound, [&] { return c13::run_extremes<short> (th); });
+    run_stage ("extremes.int", ext_bound, [&] { return c13::run_extremes<int> (th); });
+    run_stage ("extremes.int64", ext_bound, [&] { return c13::run_extremes<int64_t> (th); });
+    run_stage ("extremes.float", ext_bound, [&] { return c13::run_extremes<float> (th); });
+    run_stage ("extremes.double", ext_bound, [&] { return c13::run_extremes<double> (th); });
+    run_stage ("extremes.half", ext_bound, [&] { return c13::run_extremes<half> (th); });
 
     const char* hist_bound = th
         ? "BFS over extendBy(point in {-1..4}^D) / extendBy(every non-empty lattice box, empty box) from {default, makeEmpty(), every non-empty lattice box}, depth bound 5, D=1..4; frontier exhausted (fixpoint) => all history lengths"
@@ -50,6 +68,7 @@ int main (int argc, char** argv)
     run_stage ("histories.int64", hist_bound, [&] { return c13::run_histories<int64_t> (th); });
     run_stage ("histories.float", hist_bound, [&] { return c13::run_histories<float> (th); });
     run_stage ("histories.double", hist_bound, [&] { return c13::run_histories<double> (th); });
+    run_stage ("histories.half", hist_bound, [&] { return c13::run_histories<half> (th); });
 
     run_stage ("closest", "clip/closestPointInBox on every non-empty lattice box x points {-1..4}^D (floats: half-lattice, D<=3), 5 element types, Vec2/Vec3/generic/Vec4; closestPointOnBox on all 4096 boxes + canonical empty", [&] {
         bool ok = true;
@@ -58,14 +77,26 @@ int main (int argc, char** argv)
         return ok;
     });
 
+    run_stage ("closest.half", "element type half: clip/closestPointInBox on every non-empty lattice box x half-lattice points {-1..4 step 1/2}^D (D<=3; 4-D integer points), Vec2/Vec3/generic/Vec4; closestPointOnBox on all 4096 boxes + canonical empty",
+               [&] { return c13::run_closest<half> (th); });
+
     run_stage ("transforms", th
-        ? "4 overloads x {float,double}^2: 512 sparsity patterns x (5 fillings x 3 translations + generic filling x all 125 translations of L(2)) x 1000 boxes + all 4^9 blocks over {-1,0,1,2} x 216 boxes; 4608 projective matrices x 1000 boxes (w>0); 3097 empty + infinite inputs x 18 matrices; out-parameter forms pre-filled"
-        : "4 overloads x {float,double}^2: 512 sparsity patterns x 5 fillings x 3 translations x 1000 boxes; 4608 projective matrices x 1000 boxes (w>0); 3097 empty + infinite inputs x 18 matrices; out-parameter forms pre-filled",
+        ? "4 overloads x {float,double}^2: 512 sparsity patterns x (5 fillings x 3 translations + generic filling x all 125 translations of L(2)) x 1000 boxes over {0..3} + all 4^9 blocks over {-1,0,1,2} x 216 boxes; signed boxes: 512 patterns x 5 fillings x 3 translations x 1000 boxes over {-2,-1,1,2} + all 4^9 blocks x 216 boxes over {-2,-1,2} (float x float and double x double); 7680 projective matrices (m33 in {1,2,10,-1,-20}) x 1000 boxes, every case with w != 0 on all corners (w>0 / w<0 / mixed sign); 3097 empty + infinite inputs x 18 matrices; out-parameter forms pre-filled"
+        : "4 overloads x {float,double}^2: 512 sparsity patterns x 5 fillings x 3 translations x 1000 boxes over {0..3}; signed boxes: 512 patterns x 5 fillings x 1 translation x 216 boxes over {-2,-1,1}; 5120 projective matrices (m33 in {1,2,10}: 8 blocks x 3 translations x 64 w-rows; m33 in {-1,-20}: 4 blocks x 1 translation x 64 w-rows) x 1000 boxes, every case with w != 0 on all corners (w>0 / w<0 / mixed sign); 3097 empty + infinite inputs x 18 matrices; out-parameter forms pre-filled",
         [&] { return c13::run_transforms (th); });
+
+    run_stage ("transforms.integer-box", th
+        ? "4 overloads x Box3i/Box3s x M44f/M44d (4 combinations): 512 sparsity patterns x 5 fillings x 3 translations x 2000 boxes over {0..3} and {-2,-1,1,2}; 48 projective matrices with integer corner images (w = +-2) x 2000 boxes; 3097 empty + infinite inputs x 18 matrices"
+        : "4 overloads x Box3i x M44f and Box3s x M44d: 512 sparsity patterns x 5 fillings x 1 translation x 1216 boxes over {0..3} and {-2,-1,1}; 48 projective matrices with integer corner images (w = +-2) x 2000 boxes; 3097 empty + infinite inputs x 18 matrices",
+        [&] { return c13::run_transforms_int (th); });
 
     R ().sample ("Box3i{min=(0,0,0) max=(3,3,3)}.intersects(Box3i{min=(2,0,0) max=(1,3,3)}) : argument is inverted => empty => expected false");
     R ().sample ("Box2f default-constructed .extendBy((1,2)) .extendBy(Box2f{(0,3),(0,3)}) == {(0,2),(1,3)}");
     R ().sample ("transform(Box3f{(0,0,0),(1,2,3)}, projective m, result=[100..200]^3) must REPLACE result");
+    R ().sample ("Box3i{min=(LOWEST,0,LOWEST) max=(MAX,MAX,1)}.isInfinite() == false (infinite on the x axis only)");
+    R ().sample ("Box2h default-constructed: min=(65504,65504) max=(-65504,-65504), contains no point of {LOWEST,-1,0,1,MAX,+-denorm}^2");
+    R ().sample ("transform(Box3f{(0,0,0),(3,3,3)}, m with w = -x+1 on the corners (1 and -2: mixed sign, no zero)) == bound of the 8 corner images");
+    R ().sample ("transform(Box3i{(-2,-1,1),(2,2,2)}, M44f integer affine) == exact integer bound");
     R ().sample ("closestPointOnBox((1.5,1.5,1), Box3f{(0,0,0),(3,3,2)}) is on the surface at distance 1 (tie between z faces)");
     return R ().finish ();
 }
